@@ -173,6 +173,9 @@ func (s *Live) runC06(env *core.Env, st *core.Stats) (vs []core.Violation) {
 			return []core.Violation{core.V("malformed-delivery", structKey(why, 40), "delivery %d: %s; stream %s chunks %v level %s", i, why, core.Trunc(core.HexStr(s.Stream), 300), core.Trunc(fmt.Sprint(s.Chunks), 100), s.Level)}
 		}
 	}
+	if v := s.retained(obs); v != nil {
+		return v
+	}
 	got := dropUndefinedRTd(obs.got)
 
 	// garbage prefix: the suffix's messages are the tail of what was delivered
